@@ -93,7 +93,8 @@ fn compare(spec: &Spec, x: &[f64], want: &[f64], got: &[f64], exact: bool) -> Ve
             }
             match &spec.tie {
                 Some(t) if t(x, *a, *b) => tie = true,
-                _ => return Verdict::Differ(format!("label {b} instead of {a} (column {j}) for row {x:?}, and the model's margin between them is not a tie")),
+                Some(_) => return Verdict::Differ(format!("label {b} instead of {a} (column {j}) for row {x:?}, and the model's margin between them is not a tie")),
+                None => return Verdict::Differ(format!("label {b} instead of {a} (column {j}) for row {x:?}")),
             }
         } else if exact {
             return Verdict::Differ(format!("{b:e} instead of {a:e} (column {j}, not bit-identical) for row {x:?}"));
